@@ -118,6 +118,7 @@ def in_child(fn, timeout=300):
     import signal
     import sys
     import traceback
+    import struct
     r, w = os.pipe()
     sys.stdout.flush()
     sys.stderr.flush()
@@ -126,22 +127,45 @@ def in_child(fn, timeout=300):
         code = 0
         try:
             os.close(r)
+            try:
+                os.setpgid(0, 0)        # own process group: whatever the history leaves running is killed with it
+            except OSError:
+                pass
             signal.alarm(int(timeout))
             try:
                 out = ("ok", fn())
             except BaseException:
                 out = ("died", "raised: " + traceback.format_exc()[-1200:])
+            payload = pickle.dumps(out, protocol=4)
             with os.fdopen(w, "wb") as f:
-                pickle.dump(out, f, protocol=4)
+                f.write(struct.pack("<Q", len(payload)))
+                f.write(payload)
         except BaseException:
             code = 3
         finally:
             os._exit(code)
     os.close(w)
+
+    def read_exact(f, n):
+        # length-prefixed: processes the history left running (e.g. pool workers kept alive) may hold the write end
+        # of the pipe open for ever, so end-of-file is not a usable end marker
+        buf = b""
+        while len(buf) < n:
+            chunk = f.read(n - len(buf))
+            if not chunk:
+                break
+            buf += chunk
+        return buf
     data = b""
     with os.fdopen(r, "rb") as f:
-        data = f.read()
+        head = read_exact(f, 8)
+        if len(head) == 8:
+            data = read_exact(f, struct.unpack("<Q", head)[0])
     _, status = os.waitpid(pid, 0)
+    try:
+        os.killpg(pid, signal.SIGKILL)      # left-over descendants of the child
+    except OSError:
+        pass
     if os.WIFSIGNALED(status):
         return ("died", "child killed by signal %d" % os.WTERMSIG(status))
     if not data:
